@@ -42,6 +42,10 @@ def cases(tier, seed):
                     for r in range(reps):
                         yield dict(kind=algo, mattype='special', mapform='jordan', n=n, spectrum='separated', k=0, vreal=vreal, seed=int(rng.integers(1 << 31)))
         if algo == 'lanczos':
+            for n in (8, 12):
+                for vreal in (False, True):
+                    for r in range(reps * 3):
+                        yield dict(kind=algo, mattype='special', mapform='almost_invariant', n=n, spectrum='separated', k=0, vreal=vreal, ms=[3, 4], seed=int(rng.integers(1 << 31)))
             for n in (24, 32, 40):
                 for vreal in (False, True):
                     for r in range(reps):
